@@ -348,8 +348,12 @@ structure CState where
   cache : Cache
   consults : List Consult
   rets : List Ret
+  /-- ghost: what the directory would have answered at every `IsAdminUser` call, consulted or not
+  (this is what an outside observer of a history knows) -/
+  offered : List Consult
 
-def CState.init (t0 : Nat) : CState := { now := t0, cache := Cache.empty, consults := [], rets := [] }
+def CState.init (t0 : Nat) : CState :=
+  { now := t0, cache := Cache.empty, consults := [], rets := [], offered := [] }
 
 inductive Ev
   | advance (d : Nat)
@@ -375,8 +379,17 @@ def isAdminUserStep (maxDur : Nat) (s : CState) (u : Name) (dir : Option Bool) :
 
 def cstep (maxDur : Nat) (s : CState) : Ev → CState
   | .advance d => { s with now := s.now + d }
-  | .call u dir => isAdminUserStep maxDur s u dir
+  | .call u dir => { isAdminUserStep maxDur s u dir with offered := ⟨s.now, u, dir⟩ :: s.offered }
 
 def crun (maxDur : Nat) (s : CState) (evs : List Ev) : CState := evs.foldl (cstep maxDur) s
+
+/-- the cache property as a predicate on an observed history: the verdict `v` handed out for `u` at
+time `t` is explained by what the directory offered at the calls so far -/
+def blackboxOK (maxDur : Nat) (offered : List Consult) (t : Nat) (u : Name) (v : Bool) : Bool :=
+  (v == false && offered.any (fun f => f.user == u && f.ans == none && decide (f.t ≤ t))) ||
+  offered.any (fun c => c.user == u && c.ans == some v && decide (c.t ≤ t) &&
+    (decide (t - c.t < maxDur) ||
+     offered.any (fun f => f.user == u && f.ans == none && decide (c.t ≤ f.t) && decide (f.t ≤ t) &&
+       decide (t - f.t < maxDur))))
 
 end KM.Admin
